@@ -215,6 +215,22 @@ pub fn run(o: &Opts) -> i32 {
             out.emit(&dec_event(t.as_bytes()));
         }
     }
+    // a few inputs at the upper end of the quantifier (64 KiB), one per length residue mod 3
+    let nbig = o.num("big", 0);
+    let biglen = o.num("biglen", 65536) as usize;
+    for i in 0..nbig {
+        // 65536, 65535, 65534, then half of it, a third of it ... (each in the three residues)
+        let len = (biglen / (1 + i as usize / 3)).saturating_sub(i as usize % 3);
+        let input: Vec<u8> = (0..len).map(|_| rng.gen()).collect();
+        let (ev, text) = enc_event(&input);
+        out.emit(&ev);
+        // the decoder is quadratic in the text length (a minute per 64 KiB): only the first `bigdec` texts go back
+        if let Some(t) = text {
+            if i < o.num("bigdec", 0) {
+                out.emit(&dec_event(t.as_bytes()));
+            }
+        }
+    }
     // single-character corruptions of valid texts
     let ncorr = o.num("corrupt", 0);
     for _ in 0..ncorr {
